@@ -111,6 +111,14 @@ def stepMiddleware (op : String) (args : List String) : Option String :=
       | none => "zz=unknown"
       | some _ => "zz=handled"
     some ("ok " ++ " ".intercalate (outs ++ [unk]))
+  | "mwc", [g, k, r, specs, base, _prefix] => do
+    let g ← g.toNat?
+    let k ← k.toNat?
+    let r ← r.toNat?
+    -- the model is stateless: every one of the concurrent calls has the sequential
+    -- trace of its own argument (written "@")
+    let m := newMethod (baseFn base "") (specMws 0 (parseSpecs specs))
+    pure s!"ok calls={g * k * r} uniform {showRun (m.invoke "@")}"
   | "wiring", [what] =>
     -- the model's wiring functions on symbolic lists
     let render (l : List String) := "-then-".intercalate l
